@@ -389,8 +389,16 @@ func evalC14Chain(c c14Chain, o *Obs) error {
 		} else {
 			n := copy(scratch, e)
 			list := [][]byte{scratch[:n]}
+			if i%4 == 3 {
+				// a nil element in the middle of a list is an (empty) entry like any other, and what follows it counts
+				list = [][]byte{nil, scratch[:n]}
+				if !seen[""] {
+					seen[""] = true
+					entries = append(entries, []byte{})
+				}
+			}
 			b = b.AddEntries(list)
-			list[0] = nil
+			list[len(list)-1] = nil
 			for k := range scratch[:n] {
 				scratch[k] ^= 0xc3
 			}
